@@ -24,6 +24,7 @@ DECISIONS = ['APPROVED', 'CHANGES_REQUESTED', 'REVIEW_REQUIRED', 'NONE', 'OTHER'
 LABEL_NAMES = ['prio:high', 'WIP', 'stacked PR', 'do-not-test', 'bug']
 REPO = 'hail-is/hail'
 BRANCH = 'main'
+KEY_AMBIG = 'merge applied by GitHub but its response lost: the pass aborts with the old target sha; a later batch-only pass merges another PR tested against that sha'
 KEY_LOST = 'a GitHub notification is forgotten when the refresh it triggers fails: CI then merges on its stale view'
 KEY_DUP = 'merge while the batch for the current target is still running: build_state success inherited from another batch of the same source_sha'
 
@@ -51,6 +52,7 @@ class FakeGH:
         self.statuses = {}      # commit sha -> {context name: (required, raw state, typename)}
         self.reject_merges = 0
         self.fail_refreshes = 0     # the next n `getitem(refs/heads/…)` raise
+        self.lose_response = None   # 'timeout' | 'disconnect': the next ACCEPTED merge is applied but its response is lost
         self.fail_graphql = None    # j: in the next refresh the GraphQL query of the j-th listed PR raises gidgethub.HTTPException
         self.fail_posts = 0         # the next n status posts raise gidgethub.HTTPException (caught by post_github_status)
         self.merge_log = []
@@ -167,6 +169,15 @@ class FakeGH:
         self.main = self.next_sha
         # GitHub has applied the merge; the response is still on its way: events that reach CI right now
         await self.h.after_merge()
+        if self.lose_response:
+            # the merge is applied, but CI never sees the answer: the outcome is ambiguous for it
+            kind, self.lose_response = self.lose_response, None
+            self.h.tags.append('merge-response-lost')
+            self.h.lost_response_pass = self.h.pass_id
+            if kind == 'timeout':
+                raise asyncio.TimeoutError()
+            import aiohttp
+            raise aiohttp.ClientConnectionError('connection reset by peer')
         return {}
 
 
@@ -345,7 +356,10 @@ class History:
                 msgs.append(f'no successful test batch of source {csha} against target {tgt} (batches of that source: {have})')
             if accepted:
                 if not self.refreshed_since_merge:
-                    msgs.append('second accepted merge without a GitHub refresh of the target branch in between')
+                    lost = getattr(self, 'lost_response_pass', None)
+                    msgs.append('second accepted merge without a GitHub refresh of the target branch in between'
+                                + (' [in the SAME pass in which the response of the previous merge was lost]' if lost == self.pass_id else
+                                   ' [in a later pass, after the response of the previous merge was lost]' if lost is not None else ''))
                 self.refreshed_since_merge = False
         if accepted and p is not None:
             # ground truth: GitHub merged the PR's head of this moment; that commit must be the tested one
@@ -603,6 +617,8 @@ class History:
             self.bc.fail_lists += 1
         elif t == 'fault_graphql':
             gh.fail_graphql = op[1]
+        elif t == 'lose_merge_response':
+            gh.lose_response = op[1]
         elif t in ('notify_gh', 'notify_batch', 'update'):
             wb = self.wb
             f = {'notify_gh': wb.notify_github_changed, 'notify_batch': wb.notify_batch_changed, 'update': wb.update}[t]
@@ -645,7 +661,7 @@ class History:
                 self.mid = [tuple(x) for x in (op[1] if len(op) > 1 else [])]
             try:
                 await f(self.db, self.bc, gh, False)
-            except (AssertionError, FaultInjected, ValueError, self.g.gidgethub.HTTPException):
+            except (AssertionError, FaultInjected, ValueError, asyncio.TimeoutError, __import__('aiohttp').ClientError, self.g.gidgethub.HTTPException):
                 pass      # what the webhook handler / update_loop see (logged, 500); the flags stay as the aborted pass left them
             if getattr(self, 'ghfail_pending', False):
                 line, self.ghfail_pending = self.ghfail_pending, False
@@ -805,12 +821,12 @@ class C30(Prop):
         return self._cache[k]
 
     def model_lines(self, c):
-        if c.get('inplace'):
+        if c.get('inplace') or c.get('oracle_only'):
             return ['reset']      # truly overlapping passes have no place in the model's event order: these histories are for the oracle only
         return ['reset'] + self.run_history(c).model_lines
 
     def impl(self, c):
-        if c.get('inplace'):
+        if c.get('inplace') or c.get('oracle_only'):
             self.run_history(c)
             return ['ok']
         return ['ok'] + self.run_history(c).impl_lines
@@ -822,6 +838,9 @@ class C30(Prop):
         return h.oracle_msgs[0] if h.oracle_msgs else None
 
     def finding_key(self, c, msg):
+        # root cause: an exception out of the merge request leaves `sha` and `github_changed` as they were although GitHub may have merged
+        if msg.endswith('[in a later pass, after the response of the previous merge was lost]') and msg.count('; ') == 0:
+            return KEY_AMBIG
         # root cause: `_update` clears github_changed before `_update_github`; if that refresh raises, nobody sets it again
         if '[after a failed refresh] on GitHub' in msg and msg.count('; ') == 0:
             return KEY_LOST
@@ -977,6 +996,19 @@ class C30(Prop):
         ops += [['notify_batch', []], ['update', []], ['done', 0, 1], ['done', 0, 1], ['notify_batch', []], ['update', []]]
         return {'ci_required': True, 'ci_last': False, 'order_desc': rng.random() < 0.3, 'inplace': True, 'ops': ops}
 
+    def gen_lost_merge_response(self, rng):
+        """two or more PRs mergeable against the same target; GitHub APPLIES the first merge but the response is lost (timeout /
+        connection reset): for CI the outcome is ambiguous; judged by the oracle only"""
+        k = rng.choice([2, 2, 3])
+        ops = [['open', i, 500 + 10 * i, 1, '00000'] for i in range(1, k + 1)]
+        ops += [['review', i, 'APPROVED'] for i in range(1, k + 1)]
+        ops.append(['notify_gh', []])
+        ops += [['done', 0, 1] for _ in range(k)]
+        ops.append(['lose_merge_response', rng.choice(['timeout', 'disconnect'])])
+        ops.append([rng.choice(['notify_batch', 'update']), []])
+        ops += [rng.choice([['notify_gh', []], ['notify_gh', []], ['update', []], ['notify_batch', []]]), ['notify_batch', []], ['done', 0, 1], ['done', 0, 1], ['notify_batch', []], ['update', []]]
+        return {'ci_required': True, 'ci_last': False, 'order_desc': rng.random() < 0.3, 'oracle_only': True, 'ops': ops}
+
     def gen_running_check(self, rng):
         """everything about the PR is mergeable except that ANOTHER required check run on its head is still queued / in progress
         (conclusion null); later it concludes"""
@@ -1076,9 +1108,9 @@ class C30(Prop):
         return {'ci_required': rng.random() < 0.7, 'ci_last': False, 'order_desc': rng.random() < 0.3, 'ops': ops}
 
     def cases(self, rng, n, tier):
-        # half of the histories are free random ones, the other half rotate through the eight directed scenario families
+        # half of the histories are free random ones, the other half rotate through the nine directed scenario families
         directed = [self.gen_many_contexts, self.gen_push_after_green, self.gen_review_during_build, self.gen_running_check,
-                    self.gen_overlap, self.gen_mid_refresh, self.gen_push_race, self.gen_directed]
+                    self.gen_overlap, self.gen_mid_refresh, self.gen_push_race, self.gen_directed, self.gen_lost_merge_response]
         for i in range(n):
             if i % 2 == 1:
                 yield directed[(i // 2) % len(directed)](rng)
